@@ -55,7 +55,8 @@ class Ctx:
         self.mir_s = time.time() - t0
 
     def solver(self, name):
-        return Solver(os.path.join(self.logdir, name + ".smt2"))
+        self._nsolver = getattr(self, "_nsolver", 0) + 1
+        return Solver(os.path.join(self.logdir, "%s.%d.%d.smt2" % (name, os.getpid(), self._nsolver)))
 
     def close(self):
         if self.scratch:
